@@ -206,6 +206,28 @@ Definition run_fb (maxo : Z) (r : trange) (objs : list (obj * bool * fbtype)) : 
 """
 
 
+# ------------------------------------------------------------------------------------------ extended events (Model/FilterExt.v)
+def enc_xevent(o):
+    """a gen_ext_event object (UTC DATE-TIME master VEVENT, RRULE?, RDATE, EXDATE, override components) as FilterExt.xevent"""
+    assert o["t"] == "VEVENT" and o["kind"] == "DT", o
+    e = o["end"]
+    et = "ENone" if not e else ("(EDtend %s)" % z(e[1]) if e[0] == "dtend" else "(EDuration %s)" % z(e[1]))
+    rec = o.get("rec")
+    if rec:
+        b = rec["bound"]
+        bt = "RForever" if not b else ("(RCount %s)" % z(b[1]) if b[0] == "count" else "(RUntil %s)" % z(b[1]))
+        rule = "(Some (Build_rrule %s %s %s))" % ({"HOURLY": "Hourly", "DAILY": "Daily", "WEEKLY": "Weekly"}[rec["freq"]], z(rec["interval"]), bt)
+        ex = rec["ex"]
+    else:
+        rule, ex = "None", []
+    return "(Build_xevent %s %s %s [%s] [%s] [%s])" % (
+        z(o["start"]), et, rule, ";".join(z(x) for x in o.get("rdate") or []), ";".join(z(x) for x in ex),
+        ";".join("(Build_xover %s %s %s)" % (z(v["rid"]), z(v["start"]), z(v["end"])) for v in o.get("overrides") or []))
+
+
+EXT_HEADER = HEADER + "Require Import RV.Model.FilterExt.\n"
+
+
 # ------------------------------------------------------------------------------------------ filters
 # element = ["ind"] | ["tr", start, end] | ["pf", p, spelling?] (p=1 always true, p=0 never, p=2 true on VCALENDAR)
 #           | ["cf", NAME, [children]] | ["unk"]
@@ -358,7 +380,10 @@ def gen_vevent(rng):
     kind = rng.choice(["DT", "DT", "DATE"])
     s = gen_instant(rng, kind)
     c = rng.random()
-    if c < 0.4:
+    if c < 0.08:
+        # boundary class: zero-length event, DTEND equal to DTSTART (visited as the empty range (D, D); 9.9 row 1: start < D < end)
+        end = ["dtend", s]
+    elif c < 0.4:
         ln = gen_len(rng, kind)
         end = ["dtend", s + max(ln, DAY if kind == "DATE" else 1)]
     elif c < 0.75:
@@ -521,6 +546,11 @@ def corpus():
         ("first-exdate", ev(end=["dtend", J10 + 3600], rec=rec(ex=[J10])), [J10 - 60, J10 + 7200]),
         ("first-exdate", td(dtstart=J10, due=J10 + 3600, rec=rec(freq="WEEKLY", ex=[J10, J10 + 7 * DAY])), [J10, J10 + DAY]),
         ("first-exdate", dict(t="VJOURNAL", kind="DATE", start=T0, rec=rec(ex=[T0])), [T0, T0 + DAY]),
+        # zero-length events (DTEND = DTSTART; DURATION:PT0S is Line 3 and one second long), range strictly around an instance
+        ("zero-length", ev(end=["dtend", J10]), [J10 - 3600, J10 + 3600]),
+        ("zero-length", ev(end=["dtend", J10], rec=rec(bound=["count", 5])), [J10 + 2 * DAY - 1, J10 + 2 * DAY + 1]),
+        ("zero-length", ev(kind="DATE", start=T0, end=["dtend", T0], rec=rec(bound=["count", 4])), [T0 + DAY - 3600, T0 + DAY + 3600]),
+        ("zero-length", ev(end=["dur", 0], rec=rec(bound=["count", 5])), [J10 + 2 * DAY - 1, J10 + 2 * DAY + 1]),
     ]
 
 
@@ -657,7 +687,9 @@ def in_grammar(o):
     if o["t"] == "VEVENT":
         e = o["end"]
         if e and e[0] == "dtend":
-            return e[1] > o["start"]
+            # DTEND = DTSTART (zero-length) is outside wf_vevent (RFC 5545 wants DTEND later) but row 1 of 9.9 is defined
+            # for it and the model is faithful: kept as a boundary class for the oracle monitors
+            return e[1] >= o["start"]
         if e and e[0] == "dur":
             return e[1] >= 0
         return True
@@ -672,6 +704,23 @@ def in_grammar(o):
     if o["completed"] is not None and o["created"] is not None and o["completed"] < o["created"]:
         return False
     return True
+
+
+def zero_length(o):
+    return o["t"] == "VEVENT" and bool(o["end"]) and o["end"][0] == "dtend" and o["end"][1] == o["start"]
+
+
+def known_f20(o, r):
+    """the class of the known finding F20: recurring zero-length VEVENT (DTEND = DTSTART) and a time range starting or
+    ending exactly at one of its instances: the enclosing range (first D, last D) is attained by EMPTY ranges only, so
+    get_filtered's "declared matched" (start <= istart / iend <= end) answers True where 9.9 row 1 (start < D < end) says no."""
+    if not zero_length(o) or not o.get("rec") or is_ext(o):
+        return False
+    bounds = [x for x in r if x is not None]
+    if not bounds:
+        return False
+    occ = occurrences(o["start"], o["rec"], max(bounds) + DAY, 20000, min(bounds) - DAY)
+    return any(x in occ for x in bounds)
 
 
 def known_f14(o, r):
@@ -753,6 +802,12 @@ def boundary_ranges(rng, o, n):
     """n ranges with start, end or both at and +-1 s around boundary seconds (plus a few far / inverted / empty)."""
     bs = boundaries(o)
     out = leading_gap_ranges(rng, o, max(1, n // 3))
+    if zero_length(o):
+        # ranges strictly around one instant of a zero-length event (the only ranges that match it)
+        occ = occurrences(o["start"], o.get("rec"), o["start"] + 30 * DAY, 40)
+        for _ in range(max(1, n // 3)):
+            D = rng.choice(occ[:3] + occ[-2:]) if occ else o["start"]
+            out.append([D - rng.choice([1, 1, 2, 3600, DAY]), D + rng.choice([1, 1, 2, 3600, DAY])])
 
     def pick():
         return rng.choice(bs) + rng.choice([-1, 0, 0, 1])
